@@ -4,6 +4,7 @@ Oracle: the same resolver as C05 (visible(scope), exports(module), TypeDef.membe
 at every prefix of identifier occurrences in executable statements, CALL, USE / ONLY and member-access contexts.
 """
 import os
+import re
 
 from vf.core import Result
 from vf import harness as H
@@ -49,6 +50,8 @@ def user_names(w):
             if u.only:
                 for l, r in u.only:
                     names.add(l.lower())
+            for l, r in getattr(u, "renames", None) or []:
+                names.add(l.lower())
     return names
 
 
@@ -61,6 +64,9 @@ def rename_names(scopes_and_mods):
                     if l != r:
                         out.add(l.lower())
                         out.add(r.lower())
+            for l, r in getattr(u, "renames", None) or []:
+                out.add(l.lower())
+                out.add(r.lower())
     return out
 
 
@@ -99,6 +105,8 @@ def run_case(ctx, i, rng):
             line_text = w.lines[occ.file][occ.line]
             for pl in plens:
                 prefix = occ.name[:pl].lower()
+                if re.fullmatch(r"end(module|program|subroutine|function|procedure|type|do|if|select)?", prefix) and not line_text[:occ.col].strip():
+                    continue  # what has been typed so far *is* an END statement: offering nothing is right
                 r = srv.request("textDocument/completion", srv.pos(ws.uri(occ.file), occ.line, occ.col + pl))
                 res.count("evaluations")
                 res.seen(i, occ.file, occ.line, occ.col, pl)
